@@ -26,7 +26,8 @@ LIST_KEYS = ["L.0", "L.1"]
 TEMPLATE_KEYS = ["P", "Q", "R"]
 # keys whose values are never templated by the generators: an Option on one of them fails only when absent
 SAFE_KEYS = ["C", "D", "K", "M", "S.Y", "T.Z", "T.X"]
-EXC_CLASSES = ["ValueError", "TypeError", "KeyError", "RuntimeError", "ZeroDivisionError", "CustomError"]
+EXC_CLASSES = ["ValueError", "TypeError", "KeyError", "RuntimeError", "ZeroDivisionError", "CustomError",
+               "NotImplementedError", "AttributeError", "OSError", "AssertionError", "IndexError"]
 
 
 @dataclass
@@ -190,7 +191,7 @@ class G:
                 # a user predicate that raises on some supplied values
                 self.n_fn += 1
                 name = f"dom{self.n_fn}"
-                P.const_fn(name, True, **{"raise": {"cls": self.pick(["KeyError", "ValueError", "LookupError", "RuntimeError"]),
+                P.const_fn(name, True, **{"raise": {"cls": self.pick(["KeyError", "ValueError", "LookupError", "RuntimeError", "NotImplementedError", "AssertionError"]),
                                                     "on": [self.pick(SCALARS) for _ in range(3)]}})
                 dom = P.fnvalue(name)
             elif c < 0.5:
@@ -419,7 +420,8 @@ class G:
             return P.apply(self.expr("scalar", d), pl)
         if kind == "bind":
             self.count("bind")
-            table = [(k, self.expr(ty, d)) for k in self.distinct(SCALARS, self.rng.randint(1, 3))]
+            # continuations are user functions: they may treat `1` and `True` (equal, same hash) differently
+            table = [(k, self.expr(ty, d)) for k in self.rng.sample(SCALARS, self.rng.randint(1, 4))]
             dflt = self.expr(ty, d) if (self.chance(0.7) or cfg.total_fns) else None
             return P.bind(self.expr("scalar", d), table, dflt, cls=self.pick(EXC_CLASSES))
         if kind == "with":
